@@ -35,9 +35,23 @@ class Names:
         self.rng = rng
         self.used = set()
         self.n = itertools.count(1)
+        self.local = set()       # names declared in the module being generated
+        self.imported = set()    # names imported into it
+        self.reusable = set()    # value names declared by earlier modules
+
+    def next_module(self):
+        self.reusable |= {x for x in self.local if x[0].islower()}
+        self.local = set()
+        self.imported = set()
 
     def fresh(self, upper=False, hyphen_ok=True):
         r = self.rng
+        # sometimes reuse, in this module, a name another module declares (same-named symbols in different modules)
+        if not upper and self.reusable and r.random() < 0.2:
+            cand = r.choice(sorted(self.reusable))
+            if cand not in self.local and cand not in self.imported and (hyphen_ok or '-' not in cand):
+                self.local.add(cand)
+                return cand
         while True:
             stem = r.choice(['acme', 'widget', 'if', 'sys', 'node', 'x', 'foo', 'barBaz', 'q9', 'tempSensor', 'a'])
             s = stem + (r.choice(['', 'Entry', 'Table', 'Index', 'Count', 'State', 'Name']) if r.random() < 0.5 else '')
@@ -49,6 +63,7 @@ class Names:
             if s in self.used or s in RESERVED or s in PY_KEYWORDS or s in AVOID:
                 continue
             self.used.add(s)
+            self.local.add(s)
             return s
 
 
@@ -121,8 +136,15 @@ TEXT_SAMPLES = ['A plain description.', 'Two  spaces   and a\n        line break
                 'x', 'Tabs\tand\ttabs.', 'Trailing space ', "Apostrophe's here."]
 
 
+NASTY_TEXTS = ['back\\slash C:\\new\\table \\u0027 \\x41 \\N{DASH} end', "it's 'quoted' '' double-apostrophe",
+               'caf\u00e9 \u2603 snowman', 'W' * 130, '  leading and trailing  ', 'line one\n\n\nline four',
+               'percent %s %d {braces} {{x}}', 'ends with backslash\\', 'tab\there', '<html> & </nope>', 'a\\\\b']
+
+
 class SetGen:
     """draws one module set"""
+
+    nasty = False
 
     def __init__(self, rng, n_modules=None, size=None):
         self.rng = rng
@@ -133,6 +155,8 @@ class SetGen:
         self.size = size or rng.randint(2, 10)
 
     def text(self):
+        if self.nasty and self.rng.random() < 0.5:
+            return self.rng.choice(NASTY_TEXTS)
         return self.rng.choice(TEXT_SAMPLES)
 
     def build(self):
@@ -143,8 +167,10 @@ class SetGen:
             m = {'name': mname, 'imports': {}, 'decls': []}
             self.modules[mname] = m
             types = []
+            self.names.next_module()
 
             def imp(frm, sym):
+                self.names.imported.add(sym)
                 m['imports'].setdefault(frm, [])
                 if sym not in m['imports'][frm]:
                     m['imports'][frm].append(sym)
@@ -152,7 +178,9 @@ class SetGen:
             def pick_parent():
                 """returns (oid parts as written, numeric oid)"""
                 cands = [(None, k, v) for k, v in BASE_OIDS.items() if k in ('enterprises', 'mib-2', 'experimental', 'snmpModules')]
-                cands += [n for n in nodes if n[0] == mname or rng.random() < 0.6]
+                cands += [n for n in nodes if n[0] == mname or
+                          (rng.random() < 0.6 and n[1] not in self.names.local and
+                           not any(n[1] in syms and frm != n[0] for frm, syms in m['imports'].items()))]
                 pm, pn, poid = rng.choice(cands)
                 if pm is None:
                     imp('SNMPv2-SMI', pn)
@@ -225,8 +253,46 @@ class SetGen:
                     self.group(mname, add, imp, pick_parent, nodes)
                 else:
                     self.compliance(mname, add, imp, pick_parent, nodes)
+            if self.chains and rng.random() < 0.8:
+                self.add_chain(mname, m, add, imp, pick_parent)
             rng.shuffle(m['decls']) if rng.random() < 0.7 else None
         return self
+
+    chains = True
+
+    def add_chain(self, mname, m, add, imp, pick_parent):
+        """T1 ::= T2, …, Tk ::= <base>, plus an object of type T1: exercises chains of forward references"""
+        rng = self.rng
+        k = rng.randint(2, 5)
+        tnames = [self.names.fresh(upper=True, hyphen_ok=False) for _ in range(k)]
+        base = gen_syntax(rng, [])
+        while base['base'] == 'BITS' or 'enum' in base:
+            base = gen_syntax(rng, [])
+        if base['base'] in SMI_IMPORTABLE:
+            imp('SNMPv2-SMI', base['base'])
+        if base['base'] == 'DisplayString':
+            imp('SNMPv2-TC', 'DisplayString')
+        for i, tn in enumerate(tnames):
+            syn = base if i == k - 1 else {'base': tnames[i + 1], 'kind': base['kind'], 'user': True}
+            tc = rng.random() < 0.4
+            if tc:
+                imp('SNMPv2-TC', 'TEXTUAL-CONVENTION')
+            add({'kind': 'textualConvention' if tc else 'typeDecl', 'name': tn, 'syntax': syn, 'displayHint': None,
+                 'status': 'current', 'description': self.text(), 'reference': None}, None, syntax=syn, chain_base=base)
+        parts, oid = pick_parent()
+        imp('SNMPv2-SMI', 'OBJECT-TYPE')
+        syn = {'base': tnames[0], 'kind': base['kind'], 'user': True}
+        add({'kind': 'objectType', 'name': self.names.fresh(), 'syntax': syn, 'units': None, 'access': 'read-only',
+             'status': 'current', 'description': self.text(), 'reference': None, 'oidparts': parts, 'defval': None}, oid,
+            nodetype='scalar', syntax=syn, chain_base=base)
+
+    def importable(self, mname, frm, sym):
+        if frm == mname:
+            return True
+        if sym in self.names.local:
+            return False
+        imports = self.modules[mname]['imports']
+        return not any(sym in syms and f != frm for f, syms in imports.items())
 
     def obj_syntax(self, imp, types):
         syn = gen_syntax(self.rng, types)
@@ -286,7 +352,7 @@ class SetGen:
         # index: own columns and, sometimes, columns of an earlier table (possibly in another module)
         own = rng.sample(cols, rng.randint(1, min(2, len(cols))))
         index = [{'name': c['name'], 'module': mname, 'implied': False} for c in own]
-        foreign = [t for k, t in self.truth.items() if t.get('nodetype') == 'column']
+        foreign = [t for k, t in self.truth.items() if t.get('nodetype') == 'column' and self.importable(mname, t['module'], t['name'])]
         if foreign and rng.random() < 0.4:
             f = rng.choice(foreign)
             index.insert(0, {'name': f['name'], 'module': f['module'], 'implied': False})
@@ -312,10 +378,13 @@ class SetGen:
 
     def some_objects(self, mname, imp, kinds, n):
         rng = self.rng
-        pool = [(k, t) for k, t in self.truth.items() if t['kind'] in kinds and t.get('nodetype') in (None, 'scalar', 'column')]
+        pool = [(k, t) for k, t in self.truth.items() if t['kind'] in kinds and t.get('nodetype') in (None, 'scalar', 'column')
+                and self.importable(mname, k[0], k[1])]
         picks = rng.sample(pool, min(len(pool), n)) if pool else []
         out = []
         for (pm, pn), t in picks:
+            if not self.importable(mname, pm, pn) or any(o['name'] == pn for o in out):
+                continue
             if pm != mname:
                 imp(pm, pn)
             out.append({'name': pn, 'module': pm})
@@ -350,16 +419,27 @@ class SetGen:
 
     def compliance(self, mname, add, imp, pick_parent, nodes):
         rng = self.rng
-        groups = [(k, t) for k, t in self.truth.items() if t['kind'] in ('objectGroup', 'notificationGroup')]
+        groups = [(k, t) for k, t in self.truth.items() if t['kind'] in ('objectGroup', 'notificationGroup')
+                  and self.importable(mname, k[0], k[1])]
         if not groups:
             return
         parts, oid = pick_parent()
         imp('SNMPv2-CONF', 'MODULE-COMPLIANCE')
         mand = rng.sample(groups, min(len(groups), rng.randint(1, 2)))
         cond = [g for g in groups if g not in mand][:2]
+        seen = set()
+        keep = []
         for (pm, pn), t in mand + cond:
+            if not self.importable(mname, pm, pn) or pn in seen:
+                continue
+            seen.add(pn)
+            keep.append(((pm, pn), t))
             if pm != mname:
                 imp(pm, pn)
+        mand = [x for x in mand if x in keep]
+        cond = [x for x in cond if x in keep]
+        if not mand:
+            return
         add({'kind': 'moduleCompliance', 'name': self.names.fresh(), 'status': 'current', 'description': self.text(),
              'reference': None, 'mandatory': [{'name': k[1], 'module': k[0]} for k, t in mand],
              'conditional': [{'name': k[1], 'module': k[0]} for k, t in cond], 'oidparts': parts}, oid,
